@@ -533,7 +533,13 @@ where
         let wait_item = Item::Wait(wg.add(1));
         self.insert_buf_tx
             .try_send(wait_item)
-            .map(|_| wg.wait())
+            .map(|_| {
+                // Closed in the meantime: the processor releases every buffered marker on its
+                // way out, but one that arrives after that would never be released.
+                if !self.is_closed.load(Ordering::SeqCst) {
+                    wg.wait()
+                }
+            })
             .map_err(|e| CacheError::SendError(format!("cache set buf sender: {}", e)))
     }
 
@@ -583,6 +589,8 @@ where
         self.clear()?;
         #[cfg(transparencies_stretto_verif)]
         crate::verif::sched::point("close:after_clear");
+        // From here on nobody may start waiting for the processor any more.
+        self.is_closed.store(true, Ordering::SeqCst);
         // Block until processItems thread is returned
         self.stop_tx
             .send(())
@@ -590,7 +598,6 @@ where
         #[cfg(transparencies_stretto_verif)]
         crate::verif::sched::point("close:after_stop");
         self.policy.close()?;
-        self.is_closed.store(true, Ordering::SeqCst);
         Ok(())
     }
 
@@ -724,7 +731,12 @@ where
                     #[cfg(transparencies_stretto_verif)]
                     crate::verif::counters::inc(&crate::verif::counters::TICKS_DONE);
                 },
-                recv(self.stop_rx) -> _ => return Ok(()),
+                recv(self.stop_rx) -> _ => {
+                    // Nobody is going to serve the insert buffer any more: release whoever
+                    // waits on a marker in it.
+                    let _ = CacheCleaner::new(&mut self).clean();
+                    return Ok(());
+                },
             }
         })
     }
